@@ -426,7 +426,7 @@ def gen_template_case(rng, d):
     template_threaded.cc, ordered mode, an rdf-like histogram in rdf.dat)
     compiled as it is against the freshly built libraries"""
     case = gen_stat_case(rng, d)
-    opts = ["--top", "../topol.xml", "--trj", "../traj.dump", "--c", rng.choice(["0.7", "1.0", "1.3"])]
+    opts = ["--top", "../topol.xml", "--trj", "../traj.dump", "--c", rng.choice(["0.7", "1.1", "1.2", "1.4"])]  # mostly above half the smallest box edge (boxes vary from frame to frame)
     for o in ("--first-frame", "--nframes"):
         if o in case["opts"]:
             opts += [o, case["opts"][case["opts"].index(o) + 1]]
